@@ -110,8 +110,23 @@ def total2(ctx) -> List[Ob]:
         for d in cfg.reaching_defs(c, preds.id):
             if d.stmt is not None and isinstance(d.stmt, ast.Assign) and isinstance(d.stmt.value, ast.ListComp):
                 lc = d.stmt.value
-                if len(lc.generators) == 1 and A.unparse(lc.generators[0].iter) in ("self.graph", "self.graph.keys()") and len(lc.generators[0].ifs) == 1 and "is_exiting" in A.unparse(lc.generators[0].ifs[0]) and A.unparse(lc.elt) == A.unparse(lc.generators[0].target):
-                    okp = True
+                g0 = lc.generators[0]
+                it_txt = A.unparse(g0.iter)
+                if len(lc.generators) == 1 and len(g0.ifs) == 1 and "is_exiting" in A.unparse(g0.ifs[0]):
+                    if it_txt in ("self.graph", "self.graph.keys()") and A.unparse(lc.elt) == A.unparse(g0.target):
+                        okp = True
+                    # for name, block in self.graph.items() if block.is_exiting -> name
+                    elif it_txt == "self.graph.items()" and isinstance(g0.target, ast.Tuple) and len(g0.target.elts) == 2 and A.unparse(lc.elt) == A.unparse(g0.target.elts[0]) and A.unparse(g0.ifs[0]) in (f"{A.unparse(g0.target.elts[1])}.is_exiting",):
+                        okp = True
+            elif d.stmt is not None and isinstance(d.stmt, ast.Assign) and isinstance(d.stmt.value, ast.List) and not d.stmt.value.elts:
+                # the same as a loop: nodes = []; for name in self.graph: if self.graph[name].is_exiting: nodes.append(name)
+                for lp in A.walk_no_nested(fn.node):
+                    if isinstance(lp, ast.For) and A.unparse(lp.iter) in ("self.graph", "self.graph.keys()", "self.graph.items()"):
+                        nm = A.unparse(lp.target.elts[0]) if isinstance(lp.target, ast.Tuple) else A.unparse(lp.target)
+                        apps = [c2 for c2 in A.walk_no_nested(lp) if isinstance(c2, ast.Call) and isinstance(c2.func, ast.Attribute) and c2.func.attr == "append" and A.unparse(c2.func.value) == preds.id and c2.args and A.unparse(c2.args[0]) == nm]
+                        gds = [a for c2 in apps for a in A.ancestors(c2) if isinstance(a, ast.If) and any(x is lp for x in A.ancestors(a))]
+                        if len(apps) == 1 and len(gds) == 1 and "is_exiting" in A.unparse(gds[0].test) and not isinstance(gds[0].test, ast.UnaryOp):
+                            okp = True
     oks = isinstance(succ, (ast.List, ast.Tuple)) and not succ.elts
     if okp and oks:
         out.append(ok("TOTAL-2", fn.qualname, key, ctx.where(fn, c), "predecessors = all blocks with is_exiting, successors = []"))
@@ -321,7 +336,9 @@ def _termination_idiom(ctx, fn, w: ast.While):
     if isinstance(test, ast.BoolOp) and isinstance(test.op, ast.And) and isinstance(test.values[0], ast.Name):
         q = test.values[0].id
         body_calls = [c for c in A.walk_no_nested(ast.Module(w.body, [])) if isinstance(c, ast.Call) and isinstance(c.func, ast.Attribute) and A.unparse(c.func.value) == q]
-        top_pops = [s for s in w.body if isinstance(s, (ast.Assign, ast.Expr)) and isinstance(s.value, ast.Call) and s.value in body_calls and s.value.func.attr in ("pop", "popleft")]
+        # a pop executed on every iteration: a top-level simple statement that contains Q.pop() (possibly as an
+        # argument: `acc.add(Q.pop())`)
+        top_pops = [s for s in w.body if isinstance(s, (ast.Assign, ast.Expr, ast.AugAssign, ast.AnnAssign)) and any(c in body_calls and c.func.attr in ("pop", "popleft") for c in ast.walk(s) if isinstance(c, ast.Call) and isinstance(c.func, ast.Attribute))]
         grows = [c for c in body_calls if c.func.attr in ("append", "extend", "insert", "appendleft", "add", "update")]
         rebinds = [s for s in A.walk_no_nested(ast.Module(w.body, [])) if isinstance(s, (ast.Assign, ast.AugAssign)) and q in A.names_in(s.targets[0] if isinstance(s, ast.Assign) else s.target)]
         conts = [s for s in A.walk_no_nested(ast.Module(w.body, [])) if isinstance(s, ast.Continue)]
@@ -498,6 +515,11 @@ def iter1(ctx) -> List[Ob]:
                 ap = d.stmt.value
             if ap is not None and not any(a is w for a in A.ancestors(d.stmt)):
                 seeds.append(A.unparse(ap))
+                # a seed kept in a local first (`head = self.find_head()` / `head = "0"` in the fallback arm)
+                for nm_ in [x for x in ast.walk(ap) if isinstance(x, ast.Name)]:
+                    for d2 in cfg.reaching_defs(d.stmt, nm_.id):
+                        if d2.stmt is not None and isinstance(d2.stmt, (ast.Assign, ast.AnnAssign)) and d2.stmt.value is not None:
+                            seeds.append(A.unparse(d2.stmt.value).replace("'0'", "['0']") if isinstance(d2.stmt.value, ast.Constant) else A.unparse(d2.stmt.value))
         if seeds and all("find_head()" in s_ or "['0']" in s_ or "head" in s_ for s_ in seeds) and any("find_head()" in s_ for s_ in seeds):
             out.append(ok("ITER-1", fn.qualname, key, ctx.where(fn, w), f"work-list starts from {seeds[0][:60]}"))
         else:
